@@ -70,6 +70,35 @@ pub fn clean(s: String) -> String {
     }
 }
 
+/// What arrives through a broken route is often memory garbage that differs
+/// from run to run. The OBSERVED part of a violation must be deterministic
+/// (a replay compares it between two runs), so it only says up to where the
+/// arrived rendering agrees with the sent one, cut back to an element
+/// boundary; the raw rendering of this run is stored in the case
+/// (`arrived_this_run`).
+pub fn agree_prefix(want: &str, got: &str) -> String {
+    let n = want.bytes().zip(got.bytes()).take_while(|(a, b)| a == b).count();
+    let mut n = n.min(want.len());
+    while !want.is_char_boundary(n) {
+        n -= 1;
+    }
+    if n == want.len() && n == got.len() {
+        return want.to_string();
+    }
+    let p = &want[..n];
+    match p.rfind(", ") {
+        Some(k) => p[..k].to_string(),
+        None => match p.find(['(', '[']) {
+            Some(k) => p[..=k].to_string(),
+            None => String::new(),
+        },
+    }
+}
+
+pub fn agree_list(want: &[String], got: &[String]) -> Vec<bool> {
+    (0..want.len().max(got.len())).map(|i| want.get(i).is_some() && want.get(i) == got.get(i)).collect()
+}
+
 pub fn log(s: String) {
     let s = clean(s);
     LOG.with(|l| l.borrow_mut().push(s));
@@ -428,10 +457,15 @@ fn run_loop(cx: &mut Cx, l: &Loop, n: usize, call: &mut dyn FnMut(usize) -> (Str
             if let Some(w) = l.what {
                 c["what"] = json!(w);
             }
+            c["arrived_this_run"] = json!(got);
             let (e, o) = if l.fillers.is_some() {
-                (json!({"arrived": want, "sinks_saw": want_log}), json!({"arrived": got, "sinks_saw": got_log}))
+                c["sinks_saw_this_run"] = json!(got_log);
+                (
+                    json!({"arrived": want, "sinks_saw": want_log}),
+                    json!({"arrived_agrees_up_to": agree_prefix(&want, &got), "sinks_agree": agree_list(&want_log, &got_log)}),
+                )
             } else {
-                (json!({"arrived": want}), json!({"arrived": got}))
+                (json!({"arrived": want}), json!({"arrived_agrees_up_to": agree_prefix(&want, &got)}))
             };
             cx.violation("mismatch", s, c, e, o);
         }
@@ -674,12 +708,14 @@ pub fn run_g2<T: B>(cx: &mut Cx) {
                 cnt += 1;
                 h = vcore::util::mix(h, vcore::util::fnv_str(&got));
                 if got != sh[i] {
+                    let mut c = case_json(&inf, route, 0, i, &sh[i], &script);
+                    c["arrived_this_run"] = json!(got);
                     cx.violation(
                         "mismatch",
                         s,
-                        case_json(&inf, route, 0, i, &sh[i], &script),
+                        c,
                         json!({"arrived": sh[i]}),
-                        json!({"arrived": got}),
+                        json!({"arrived_agrees_up_to": agree_prefix(&sh[i], &got)}),
                     );
                 }
             }
